@@ -315,6 +315,35 @@ def c05g(db, res):
                     res.check(before, 'C05.g', '%s:%s:receiver-flushed' % (name, hook), 'the header-data receiver is flushed and closed on every path to the hook',
                               '%s runs %s on a path where the raw header data has not been flushed to the %s_HEADER_DATA receiver: the last piece of the header block arrives after the HEADERS callback - or, for a message without a body, together with bytes of whatever follows it' % (name, hook, side.upper()), c['loc'])
     res.floor('C05.g', 'HEADERS hook runs', m, 2)
+    # and the function that runs the HEADERS hook runs it on every successful path: an early `return HTP_OK` in front of it
+    # delivers body data and completion for a message whose HEADERS callback never ran
+    for name, f in sorted(db.fn.items()):
+        if not f.blocks:
+            continue
+        sites = [(b, i, hook) for b, i, st in f.stmts() for hook, c in P.hook_runs(st) if hook in ('hook_request_headers', 'hook_response_headers')]
+        for b, i, hook in sites:
+            bad = None
+            k = 0
+            # blocks reachable from the entry without passing the block that runs the hook
+            seen_, w_ = set(), [f.entry]
+            while w_:
+                x_ = w_.pop()
+                if x_ in seen_ or x_ == b:
+                    continue
+                seen_.add(x_)
+                w_ += [s_ for s_ in f.blocks[x_]['succs'] if s_ is not None]
+            for rb, ri, rs in f.returns() or []:
+                if lit_name(P.ret_value(rs)) != 'HTP_OK':
+                    continue
+                facts = [a for a, e in P.facts_at(f, rb)]
+                if any(a[0] in ('tx', 'connp') and a[1] == '==' and a[2] == '0' for a in facts) or any(a[0].endswith('_progress') and a[1] == '>' for a in facts):
+                    continue
+                k += 1
+                if rb in seen_:
+                    bad = rs
+            if k:
+                res.check(bad is None, 'C05.g', '%s:%s:on-every-successful-path' % (name, hook), 'every successful path runs the hook',
+                          '%s returns HTP_OK on a path that has not run %s: the message goes on to its body and completion callbacks without the HEADERS callback (and with the header-data receiver still open)' % (name, hook), (bad or {}).get('loc', f.loc))
 
 
 def c05h(db, res):
